@@ -298,6 +298,48 @@ def run(fx, chk, tier):
         for variant, fld in KIND:
             chk.require(stores.get(fld) == variant, "R-KIND", "mux|" + variant, "%s => stsd.%s" % (variant, fld), "%s populates stsd.%s in arm %s" % (variant, fld, stores.get(fld)), site_of(new))
             chk.require("StsdBox." + fld in rd_mt and "StsdBox." + fld in rd_bt, "R-KIND", "demux|" + fld, "media_type()/box_type() test stsd.%s" % fld, "media_type()/box_type() do not test stsd.%s" % fld, site_of(mt))
+    # ---------------- R-VERBATIM
+    import re
+    from panicfree import fn_short
+    chk.rule("R-VERBATIM", "byte strings of a track configuration (parameter sets) reach the sample entry unchanged: inside the configuration closure every byte sequence handed to a local function is a parameter or a field of one, through copies only (no slicing, trimming or rewriting on the way)")
+    ctor = fx.impl_fn("Mp4TrackWriter", None, "new")
+    nverb = 0
+    if chk.anchor("R-VERBATIM", "Mp4TrackWriter::new", ctor):
+        IDENT = re.compile(r"^(?:[\w:<>&\[\], ]*?)(deref|to_vec|to_owned|clone|as_ref|as_slice|borrow|into|from|as_bytes|iter|copied|cloned|collect|into_iter|from_iter)\((.*)\)$")
+        PARAM = re.compile(r"^\$\d+(\.[\w]+)*$")
+
+        def is_bytes(ty):
+            t = (ty or "").replace("&mut ", "").replace("&", "").replace("'static ", "").strip()
+            t = re.sub(r"^'\w+ ", "", t)
+            return t in ("[u8]", "alloc::vec::Vec<u8>", "Vec<u8>", "bytes::Bytes", "bytes::bytes::Bytes") or t.startswith("alloc::vec::Vec<u8,")
+        for fid in sorted(cg.closure([ctor["id"]])):
+            fn = fx.fns.get(fid)
+            body = body_of(fn) if fn else None
+            if body is None or fn.get("derived"):
+                continue
+            for b, t in body.calls():
+                p = callee_path(t["callee"])
+                tail_ = (t["callee"].get("path") or "").split("::")[-1]
+                if p not in fx.fns and tail_ not in ("to_vec", "to_owned", "clone", "from", "into", "extend_from_slice", "copy_from_slice", "from_iter", "collect"):
+                    continue
+                for i, a in enumerate(t["args"]):
+                    pl = op_place(a)
+                    ty = (pl or {}).get("ty") or (body.locals[pl["l"]]["ty"] if pl is not None and not pl["p"] else None)
+                    if not is_bytes(ty):
+                        continue
+                    nverb += 1
+                    c = body.canon_op(a)
+                    inner = c
+                    for _ in range(8):
+                        m_ = IDENT.match(inner)
+                        if not m_:
+                            break
+                        inner = m_.group(2)
+                    key = "%s|%s|arg%d" % (fn_short(fid), fn_short(p) if p in fx.fns else tail_, i)
+                    chk.require(bool(PARAM.match(inner)) or inner.startswith(("b\"", "\"", "const")), "R-VERBATIM", key, "passes %s on unchanged" % inner,
+                                "%s hands %s the byte string `%s`, which is not one of its own parameters / configuration fields passed on unchanged: the configured bytes are rewritten before they are stored" % (fn_short(fid), fn_short(p) if p in fx.fns else tail_, c),
+                                site_of(fn, t.get("line")))
+    chk.floor("R-VERBATIM", "byte-string hand-offs in the configuration closure", nverb, 5)
     # ---------------- R-TABLE / R-DUR
     from packs_common import compose
     import units
